@@ -16,16 +16,21 @@ use std::fmt::Display;
 use std::marker::PhantomData;
 use std::str::FromStr;
 use std::sync::Arc;
+use std::sync::atomic::{AtomicU64, Ordering};
 
 /// A thread-safe queue of orders with specialized operations
 #[derive(Debug)]
 pub struct OrderQueue {
-    /// A map of order IDs to orders for quick lookups
-    orders: DashMap<OrderId, Arc<OrderType<()>>>,
-    /// A queue of order IDs to maintain FIFO order
-    order_ids: SegQueue<OrderId>,
-    /// Order IDs that go out ahead of `order_ids`: orders handed back to the head of the queue
-    front_ids: SegQueue<OrderId>,
+    /// A map of order IDs to orders for quick lookups. Each entry carries the number of the
+    /// queue ticket that stands for it, so that a ticket left behind by a removed order can
+    /// never be mistaken for the ticket of an order added later under the same ID
+    orders: DashMap<OrderId, (u64, Arc<OrderType<()>>)>,
+    /// A queue of (order ID, ticket number) to maintain FIFO order
+    order_ids: SegQueue<(OrderId, u64)>,
+    /// Tickets that go out ahead of `order_ids`: orders handed back to the head of the queue
+    front_ids: SegQueue<(OrderId, u64)>,
+    /// Next ticket number
+    next_ticket: AtomicU64,
 }
 
 impl OrderQueue {
@@ -35,31 +40,39 @@ impl OrderQueue {
             orders: DashMap::new(),
             order_ids: SegQueue::new(),
             front_ids: SegQueue::new(),
+            next_ticket: AtomicU64::new(0),
         }
     }
 
     /// Add an order to the queue
     pub fn push(&self, order: Arc<OrderType<()>>) {
         let order_id = order.id();
-        self.orders.insert(order_id, order);
-        self.order_ids.push(order_id);
+        let ticket = self.next_ticket.fetch_add(1, Ordering::Relaxed);
+        self.orders.insert(order_id, (ticket, order));
+        self.order_ids.push((order_id, ticket));
     }
 
     /// Hand an order back to the head of the queue: it is popped before every order added
     /// with `push`. Used for an order that was taken out and keeps its time priority.
     pub fn push_front(&self, order: Arc<OrderType<()>>) {
         let order_id = order.id();
-        self.orders.insert(order_id, order);
-        self.front_ids.push(order_id);
+        let ticket = self.next_ticket.fetch_add(1, Ordering::Relaxed);
+        self.orders.insert(order_id, (ticket, order));
+        self.front_ids.push((order_id, ticket));
     }
 
     /// Attempt to pop an order from the queue
     pub fn pop(&self) -> Option<Arc<OrderType<()>>> {
         loop {
-            if let Some(order_id) = self.front_ids.pop().or_else(|| self.order_ids.pop()) {
-                // If the order was removed, pop will return None, but the ID was in the queue.
-                // In this case, we loop and try to get the next one.
-                if let Some((_, order)) = self.orders.remove(&order_id) {
+            if let Some((order_id, ticket)) =
+                self.front_ids.pop().or_else(|| self.order_ids.pop())
+            {
+                // If the order was removed, or removed and added again since this ticket was
+                // issued, the ticket is stale. In this case, we loop and try the next one.
+                if let Some((_, (_, order))) = self
+                    .orders
+                    .remove_if(&order_id, |_, entry| entry.0 == ticket)
+                {
                     return Some(order);
                 }
             } else {
@@ -70,19 +83,36 @@ impl OrderQueue {
 
     /// Search for an order with the given ID. O(1) operation.
     pub fn find(&self, order_id: OrderId) -> Option<Arc<OrderType<()>>> {
-        self.orders.get(&order_id).map(|o| o.value().clone())
+        self.orders.get(&order_id).map(|o| o.value().1.clone())
     }
 
     /// Remove an order with the given ID
     /// Returns the removed order if found. O(1) for the map, but the ID remains in the queue.
     pub fn remove(&self, order_id: OrderId) -> Option<Arc<OrderType<()>>> {
-        self.orders.remove(&order_id).map(|(_, order)| order)
+        self.orders.remove(&order_id).map(|(_, (_, order))| order)
+    }
+
+    /// Replace the order with the given ID in place: it keeps its ticket, hence its position
+    /// in the queue. `update` gets the current order and returns the one to store; it runs
+    /// while the entry is locked, so nobody can take the order in between.
+    /// Returns the previous and the new order if the ID was found.
+    #[allow(clippy::type_complexity)]
+    pub fn replace_with(
+        &self,
+        order_id: OrderId,
+        update: impl FnOnce(&Arc<OrderType<()>>) -> Arc<OrderType<()>>,
+    ) -> Option<(Arc<OrderType<()>>, Arc<OrderType<()>>)> {
+        let mut entry = self.orders.get_mut(&order_id)?;
+        let old = entry.1.clone();
+        let new = update(&old);
+        entry.1 = new.clone();
+        Some((old, new))
     }
 
     /// Convert the queue to a vector (for snapshots)
     pub fn to_vec(&self) -> Vec<Arc<OrderType<()>>> {
         let mut orders: Vec<Arc<OrderType<()>>> =
-            self.orders.iter().map(|o| o.value().clone()).collect();
+            self.orders.iter().map(|o| o.value().1.clone()).collect();
         orders.sort_by_key(|o| o.timestamp());
         orders
     }
@@ -141,7 +171,7 @@ impl Serialize for OrderQueue {
     {
         let mut seq = serializer.serialize_seq(Some(self.len()))?;
         for order_entry in self.orders.iter() {
-            seq.serialize_element(order_entry.value().as_ref())?;
+            seq.serialize_element(order_entry.value().1.as_ref())?;
         }
         seq.end()
     }
